@@ -34,15 +34,31 @@ def resolve_candidate(rep, prog, rule="RESOLVE-CANDIDATE"):
         if not uses_tolerance:
             rep.violation(rule, name + " tolerance", "anchor missing: the function no longer calls its is_equal predicate", f.loc())
             continue
-        for bi, b in enumerate(f.blocks):
+        # the construction may sit in a closure handed to Option::map / and_then (`matching_offset(..).map(|offset| ..)`): the
+        # closure's parameter is then the Some payload of the receiver
+        closures = [g for g in prog.fns.values() if g.crate == "jiff" and g.is_closure and g.path.startswith(f.path + "::{closure")]
+        recv_of = {}
+        for bi, t in mir.iter_calls(f):
+            if t.get("path", "").rsplit("::", 1)[-1] in ("map", "and_then", "map_or", "map_or_else") and "Option" in t.get("path", ""):
+                for i in range(len(t.get("args", []))):
+                    x = T.at_call(bi, t, i)
+                    if x[0] == "closure":
+                        recv_of[x[1]] = T.at_call(bi, t, 0)
+        for body in [f] + closures:
+          Tb = T if body is f else Terms(body)
+          for bi, b in enumerate(body.blocks):
             for si, s in enumerate(b["st"]):
                 if s["s"] == "=" and s["rv"]["k"] == "agg" and s["rv"].get("adt", "").endswith("AmbiguousOffset") \
                         and s["rv"].get("variant") == "Unambiguous":
                     n += 1
                     key = "%s Unambiguous#%d" % (name, n)
-                    loc = "%s:%s" % (f.file, s.get("ln"))
+                    loc = "%s:%s" % (body.file, s.get("ln"))
                     bad = []
-                    for a in alts(T.operand(s["rv"]["ops"][0], pos=(bi, si))):
+                    for a in alts(Tb.operand(s["rv"]["ops"][0], pos=(bi, si))):
+                        if body is not f and a[0] == "param" and a[1] >= 2:
+                            recv = recv_of.get(body.path)
+                            if recv is not None and _candidate(prog, ("field", ("variant", recv, "Some"), "0")):
+                                continue
                         if not _candidate(prog, a):
                             bad.append(show(a, maxd=4)[:80])
                     if bad:
@@ -65,9 +81,16 @@ def _candidate(prog, a, depth=0):
     if _from_zone(a):
         return True
     t = a
-    while t[0] in ("field", "variant", "try") and depth == 0:
-        t = t[1]
-        if t[0] == "call":
+    # look through payload projections and through the std adapters that hand an Option's payload on unchanged
+    # (`opt.ok_or_else(..)?`, `opt.ok_or(..)?`, `opt.expect(..)`, `opt.unwrap()`)
+    steps = 0
+    while depth == 0 and steps < 12:
+        steps += 1
+        if t[0] in ("field", "variant", "try"):
+            t = t[1]
+        elif t[0] == "call" and t[1].rsplit("::", 1)[-1] in ("ok_or_else", "ok_or", "expect", "unwrap", "copied", "cloned") and t[2]:
+            t = t[2][0]
+        else:
             break
     if depth == 0 and t[0] == "call" and ("jiff::" + t[1]) in prog.fns:
         g = prog.fns["jiff::" + t[1]]
